@@ -21,6 +21,7 @@ import (
 	"golang.org/x/tools/go/analysis"
 
 	"verifharness/internal/common"
+	"verifharness/internal/userrules"
 	"verifharness/internal/coqfmt"
 )
 
@@ -253,11 +254,13 @@ func faultMatrix(meta *common.Meta, tier string, outDir string) int {
 	base := filepath.Join(outDir, "fm")
 	os.RemoveAll(base)
 	defer os.RemoveAll(base)
-	common.WriteFile(filepath.Join(base, "go.mod"), "module fm\n\ngo 1.20\n")
+	// a module in which user rule files load (it requires the dsl package), so that "some files loaded, then
+	// the failure" states exist; p1..p3 each hold one captLocal trigger and one user-rule trigger
+	rdir := userrules.Workspace(base)
 	for _, p := range []string{"p1", "p2", "p3"} {
-		common.WriteFile(filepath.Join(base, p, "a.go"), "package "+p+"\n\nfunc F(IN int) int { return IN }\n")
+		common.WriteFile(filepath.Join(base, p, "a.go"), "package "+p+"\n\nfunc F(IN int) int { return IN }\n\nfunc G(s string) bool { return len(s) == 0 }\n")
 	}
-	rules := "/verif/corpus/c15/rules.go"
+	rules := filepath.Join(rdir, "good.go")
 	faults := []fault{
 		{name: "bad-go-version", cliArgs: []string{"-go=1.x"}, anArgs: []string{"-go=1.x"}, keywords: []string{"1.x", "version"}, parseOK: true, goOK: false, nonEmpty: true, loadOK: true},
 		{name: "empty-selection", cliArgs: []string{"-enable=nosuchchecker"}, anArgs: []string{"-enable=nosuchchecker"}, keywords: []string{"empty"}, parseOK: true, goOK: true, nonEmpty: false, loadOK: true},
@@ -418,11 +421,13 @@ Definition cases : list (cli_config * cli_outcome) := [
 		"unresolved-import":               {"a.go": "package b\n\nimport (\n\tnope \"example.com/does/not/exist\"\n\t\"fmt\"\n)\n\nfunc F(IN int) { fmt.Println(nope.X, IN) }\n"},
 		"mixed-packages":                  {"a.go": "package b\n\nfunc F(IN int) int { return IN }\n", "c.go": "package c\n\nfunc G(IN int) int { return IN }\n"},
 		"invalid-import-path":             {"a.go": "package b\n\nimport \"\"\n\nfunc F(IN int) int { return IN }\n"},
-		"self-import":                     {"a.go": "package b\n\nimport b \"fm/broken/self-import\"\n\nfunc F(IN int) int { return IN + b.X }\n"},
+		"self-import":                     {"a.go": "package b\n\nimport b \"urws/broken/self-import\"\n\nfunc F(IN int) int { return IN + b.X }\n"},
 		"blank-and-dot-import-of-missing": {"a.go": "package b\n\nimport (\n\t_ \"example.com/none/a\"\n\t. \"example.com/none/b\"\n)\n\nfunc F(IN int) int { return IN }\n"},
 		"package-name-with-test-suffix":   {"a.go": "package b_test\n\nfunc F(IN int) int { return IN }\n"},
 		// two directories whose package clauses end in _test (in ordinary files) and whose import paths agree up to the last five bytes
 		"two-test-suffix-packages": {"unslice/a.go": "package checker_test\n\nfunc F(IN int) int { return IN }\n", "underef/a.go": "package checker_test\n\nfunc G(IN int) int { return IN }\n"},
+		// ill-typed declaration and assignment forms (the walkers index Lhs/Rhs/Names/Values by position)
+		"assignment-mismatch": {"a.go": "package b\n\nfunc pair() (int, int) { return 1, 2 }\n\nfunc F(IN int) int {\n\ta, b, c := pair(), IN\n\tvar d, e = pair(), IN, 3\n\tvar f, g int = 1\n\tx, y := 1\n\tvar h, i = <-make(chan int), 2, 3\n\ta, b = pair(), 1, 2\n\treturn a + b + c + d + e + f + g + x + y + h + i\n}\n"},
 		"undefined-names":                 {"a.go": "package b\n\nfunc F(IN int) int { x := undefinedFn(IN); return x.y[0] }\n\nfunc H(s string) bool { return len(s) == 0 }\n"},
 	}
 	for name, files := range broken {
